@@ -211,10 +211,11 @@ func (s *sys) diskVal(a common.Address) int {
 }
 
 // probe: what a read of a through the view yields, WITHOUT the cache insertion of AccountTrieDB.Get
-func (s *sys) probe(v *store.AccountTrieDB, a common.Address) int {
+// (disk = the persisted value read by GetAccount during this same observation)
+func (s *sys) probe(v *store.AccountTrieDB, a common.Address, disk int) int {
 	d := v.GetTrie().Find(a.Hex())
 	if d == nil {
-		return s.diskVal(a)
+		return disk
 	}
 	acc, ok := d.(*types.AccountData)
 	if !ok || acc == nil || acc.Balance == nil {
@@ -243,6 +244,11 @@ func (s *sys) observe(fl engine.Fields) {
 		}
 	}
 	fl["exist"] = exist
+	disk := []int{}
+	for _, a := range s.addrs {
+		disk = append(disk, s.diskVal(a))
+	}
+	fl["disk"] = disk
 	views := [][]int{}
 	anc := [][]int{}
 	look := append([]int{}, unconf...)
@@ -255,11 +261,11 @@ func (s *sys) observe(fl engine.Fields) {
 		}
 		v, err := s.db.GetActDatabase(s.blocks[id].Hash())
 		row := []int{id}
-		for _, a := range s.addrs {
+		for i, a := range s.addrs {
 			if err != nil || v == nil {
 				row = append(row, -4)
 			} else {
-				row = append(row, s.probe(v, a))
+				row = append(row, s.probe(v, a, disk[i]))
 			}
 		}
 		views = append(views, row)
@@ -279,11 +285,6 @@ func (s *sys) observe(fl engine.Fields) {
 	}
 	fl["views"] = views
 	fl["anc"] = anc
-	disk := []int{}
-	for _, a := range s.addrs {
-		disk = append(disk, s.diskVal(a))
-	}
-	fl["disk"] = disk
 }
 
 func (s *sys) block(id int) *types.Block {
